@@ -198,3 +198,65 @@ let () = register "tgconst" (fun _ ->
       "EV_DTLS_ERROR", tg_EV_DTLS_ERROR; "EV_SESSION_CONNECTED", tg_EV_SESSION_CONNECTED;
       "NACK_TOO_MANY_RETRIES", tg_NACK_TOO_MANY_RETRIES; "NACK_NOT_DELIVERABLE", tg_NACK_NOT_DELIVERABLE;
       "NACK_TLS_FAILED", tg_NACK_TLS_FAILED; "NACK_TLS_LAYER_FAILED", tg_NACK_TLS_LAYER_FAILED ]))
+
+
+(* ---- TLS over TCP session machine (coq/Tls/GateTcp.v)
+   tgt <c|s> <hs> <tx> <rx> step ...     step = <event>=<outs>[@<state>/<dq>/<tls>/<first>/<sock>] *)
+let tev_of_string (s : string) : tgt_ev =
+  let rest = String.sub s 1 (String.length s - 1) in
+  let msg r app =
+    match String.split_on_char ':' r with
+    | [i; c] -> TSend ({ tm_id = iz (int_of_string i); tm_con = (c = "1"); tm_bytes = [] }, app)
+    | _ -> failwith "bad send" in
+  match s.[0] with
+  | 'C' -> TConnect
+  | 'K' -> TConnected (rest = "1")
+  | 'A' -> TAccept
+  | 'R' -> TRead
+  | 'D' -> TDispatch (iz (int_of_string rest))
+  | 'S' -> msg rest true
+  | 's' -> msg rest false
+  | 'W' -> TFirstTimeout
+  | 'F' -> TFree
+  | _ -> failwith ("bad tcp event " ^ s)
+
+let () = register "tgt" (fun args ->
+  match args with
+  | side :: hs :: tx :: rx :: steps ->
+      let o = tg_oracle_of (ints hs) [] (ints tx) (ints rx) [] in
+      let s0 = tgt_new_session (side = "c") in
+      let idl x = if x = "-" then [] else List.map (fun y -> iz (int_of_string y)) (String.split_on_char '.' x) in
+      let parse_snap x =
+        match String.split_on_char '/' x with
+        | [st; dq; tl; fi; so] ->
+            { tn_state = iz (int_of_string st); tn_dq = idl dq; tn_tls = (tl = "1");
+              tn_first = (fi = "1"); tn_sock = (so = "1") }
+        | _ -> failwith ("bad snapshot " ^ x) in
+      let parse st =
+        let (st, snap) =
+          match String.index_opt st '@' with
+          | None -> (st, None)
+          | Some j -> (String.sub st 0 j, Some (parse_snap (String.sub st (j + 1) (String.length st - j - 1)))) in
+        match String.index_opt st '=' with
+        | None -> failwith ("bad step " ^ st)
+        | Some i ->
+            let e = String.sub st 0 i and r = String.sub st (i + 1) (String.length st - i - 1) in
+            ((tev_of_string e, List.map out_of_string (split ',' r)), snap) in
+      let trs = List.map parse steps in
+      if tgt_accepts o s0 trs then "ACCEPT"
+      else begin
+        let rec go s k l =
+          match l with
+          | [] -> "REJECT ?"
+          | ((e, outs), n) :: r ->
+              let (s1, o1) = tgt_step o s e in
+              let snap_bad = (match n with Some x -> not (tgt_snap_ok s1 x) | None -> false) in
+              if tg_outs_eqb o1 outs && not snap_bad then go s1 (k + 1) r
+              else Printf.sprintf "REJECT step=%d ev=%s model=%s state=%d/%s/%d/%d/%d" k (List.nth steps k)
+                     (String.concat "," (List.map out_to_string o1))
+                     (zi (tg_state_num s1.tt_state))
+                     (String.concat "." (List.map (fun m -> string_of_int (zi m.tm_id)) s1.tt_delayq))
+                     (if s1.tt_tls then 1 else 0) (if s1.tt_first then 1 else 0) (if s1.tt_sock then 1 else 0) in
+        go s0 0 trs
+      end
+  | _ -> "ERROR tgt args")
